@@ -104,9 +104,9 @@ def expand(g):
     out = []
     for i in inst:
         h = dict(g)
-        h['name'] = g['name'] + '@' + ','.join('%s=%s' % kv for kv in sorted(i.items()) if kv[0] not in ('tier', 'timeout', 'solver'))
-        h['defines'] = list(g['defines']) + ['-D%s=%s' % kv for kv in i.items() if kv[0] not in ('tier', 'timeout', 'solver')]
-        for k in ('tier', 'timeout', 'solver'):
+        h['name'] = g['name'] + '@' + ','.join('%s=%s' % kv for kv in sorted(i.items()) if kv[0] not in ('tier', 'timeout', 'solver', 'unwind'))
+        h['defines'] = list(g['defines']) + ['-D%s=%s' % kv for kv in i.items() if kv[0] not in ('tier', 'timeout', 'solver', 'unwind')]
+        for k in ('tier', 'timeout', 'solver', 'unwind'):
             if k in i:
                 h[k] = i[k]
         out.append(h)
@@ -347,8 +347,13 @@ def run_group(g, repo=REPO, use_cache=True):
             raise Undecided('harness has no reachability canary')
         if dead:
             raise Undecided('vacuous: canary not reachable: ' + '; '.join(o['desc'] for o in dead))
-        bad = [o for o in obs if not o['canary'] and o['status'] != 'SUCCESS']
-        res['status'] = 'failed' if bad else 'ok'
+        bad = [o for o in obs if not o['canary'] and o['status'] == 'FAILURE']
+        # UNKNOWN: cbmc marks obligations reachable from a failed *fatal* assertion (undefined behaviour) as
+        # unknown; they are neither discharged nor reported as failed themselves
+        unk = [o for o in obs if not o['canary'] and o['status'] not in ('SUCCESS', 'FAILURE')]
+        res['status'] = 'failed' if bad else ('ok' if not unk else 'undecided')
+        if unk and not bad:
+            res['reason'] = '%d obligations UNKNOWN without a failed one' % len(unk)
         if res['status'] == 'ok':
             os.makedirs(CACHE_DIR, exist_ok=True)
             slim = {k: res[k] for k in ('status', 'obligations', 'solver_s', 'woven_edits', 'fp_restrictions', 'cmd')}
@@ -579,7 +584,7 @@ def check_property(prop, tier, groups, propmeta, seed=0):
         mine = [o for o in r['obligations'] if prop in o['props'] and not o['canary']]
         canaries = [o for o in r['obligations'] if o['canary']]
         ok = [o for o in mine if o['status'] == 'SUCCESS']
-        bad = [o for o in mine if o['status'] != 'SUCCESS']
+        bad = [o for o in mine if o['status'] == 'FAILURE']
         if r['status'] == 'undecided':
             undec.append(r)
         kn = []
